@@ -1794,21 +1794,26 @@ def evaluate__node_name(self: XPathFunction, context: ta.ContextType = None) \
         name = arg.name
         if name is None:
             return []
-        elif name.startswith('{'):
-            # name is a QName in extended format
-            namespace, local_name = split_expanded_name(name)
-            if not namespace:
-                return QName('', local_name)
 
-            for pfx, uri in self.parser.namespaces.items():
-                if uri == namespace:
-                    if not pfx:
-                        return QName(uri, local_name)
-                    return QName(uri, '{}:{}'.format(pfx, local_name))
-            raise self.error('FONS0004', 'no prefix found for namespace {}'.format(namespace))
-        else:
-            # name is a local name
-            return QName(self.parser.namespaces.get('', ''), name)
+        try:
+            if name.startswith('{'):
+                # name is a QName in extended format
+                namespace, local_name = split_expanded_name(name)
+                if not namespace:
+                    return QName('', local_name)
+
+                for pfx, uri in self.parser.namespaces.items():
+                    if uri == namespace:
+                        if not pfx:
+                            return QName(uri, local_name)
+                        return QName(uri, '{}:{}'.format(pfx, local_name))
+            else:
+                # name is a local name
+                return QName(self.parser.namespaces.get('', ''), name)
+        except ValueError as err:
+            raise self.error('FOCA0002', err) from None
+
+        raise self.error('FONS0004', 'no prefix found for namespace {}'.format(namespace))
     else:
         raise self.error('XPTY0004', 'an XPath node required')
 
